@@ -113,6 +113,11 @@ _wire("C16", 35, 900,
       ["the ALPN list is taken from the ClientHello bytes captured by simnet (own TLS record/ClientHello parser)",
        "an empty Struct marshals to zero bytes and is treated as 'no state'",
        "client states that need 100 or more ALPN chunks are exercised by C07 (honest configurations), not here"])
+_wire("C07", 40, 900,
+      "each run is one of three scenarios around the real protocol.Dial (through hook H1): (history) enroll, then 3-9 steps of clock jump + root rotation or a dial with tape-chosen address form (host:port, bare host, unix path, IPv4/IPv6 literal), client state (absent, small, nested, large 12-30 KB = more than 99 ALPN chunks), extra ALPN protocols and node storage wrapper; (pending) NewNodeCredentials, dial before authorization, operator authorization of the stored key, dial again - also token and wrapper flows; (rogue) the dial is routed to a hand-written crypto/tls server that presents a foreign-root certificate with the right nonce, a certificate legitimately minted by the real roots for another nonce, one without nonce, a registered node's client certificate, the non-preferred chain, or (control) a correct relay certificate. Non-trivial: all; distinct by (scenario, address class, state/extras, rogue kind, outcome).",
+      ["the nonce of a connection is extracted from the ClientHello bytes captured by simnet",
+       "an honest dial is required to succeed iff some stored chain is valid now and issued by a root the server currently holds (computed with crypto/x509 from both storages)",
+       "kernel dialing is replaced by protocol.SimDial; address parsing and SNI selection still run"])
 
 HOOK_COMMITS = ["54f90f1 (H2: net/splitlistener.go scheduling points + net/verif_hook_{on,off}.go)",
                 "c914c74 (H1: protocol/dialer.go SimDial seam + protocol/verif_hook_{on,off}.go)"]
@@ -123,6 +128,7 @@ NOT_APPLICABLE["C20"] = ("pure function of its arguments (BreakIntoNextProtos/Co
                          "its failure modes are reached by the simulated workloads of C14 (malformed entries in a hostile ClientHello) and C07/C16 (honest payloads needing >99 chunks)")
 
 LEVEL_TEXT = {
+    "C07": "seeded simulation of honest dial histories across root rotations, of the pending-then-authorized path, and of rogue-server constructions; every completed dial is checked against the node's stored roots and the connection's own nonce, every expected-successful dial must succeed.",
     "C16": "seeded simulation of honest dials with varied client state and ALPN extras against the real listener; the application-visible metadata is compared with what the node supplied and with the ClientHello captured on the simulated wire; adversarial unsigned/forged state must never reach the application.",
     "C02": "seeded simulation of honest and adversarial TLS peers against the real listener across register/remove/rotate histories; every authenticated connection is judged by a reference model recomputed from server storage and from what was actually sent.",
     "C14": "seeded simulation of hostile peers against the real listener: every Accept iteration runs under recover (a panic is a violation), every error for a hostile connection must be Temporary, a subsequent honest node must connect, non-temporary errors only after the base listener is closed or fails.",
